@@ -22,6 +22,7 @@ theorem pin_xsync_Group_Stop_ok : Juniper.Gen.PinSkeletonPar.pin_xsync_Group_Sto
 theorem pin_xsync_Group_StopAndWait_ok : Juniper.Gen.PinSkeletonPar.pin_xsync_Group_StopAndWait = Juniper.Pinned.SkeletonPar.pin_xsync_Group_StopAndWait := by rfl
 theorem pin_xsync_Group_Trigger_ok : Juniper.Gen.PinSkeletonPar.pin_xsync_Group_Trigger = Juniper.Pinned.SkeletonPar.pin_xsync_Group_Trigger := by rfl
 theorem pin_xsync_Group_spawn_ok : Juniper.Gen.PinSkeletonPar.pin_xsync_Group_spawn = Juniper.Pinned.SkeletonPar.pin_xsync_Group_spawn := by rfl
+theorem pin_xsync_jitterDuration_ok : Juniper.Gen.PinSkeletonPar.pin_xsync_jitterDuration = Juniper.Pinned.SkeletonPar.pin_xsync_jitterDuration := by rfl
 theorem pin_parallel_type_mapIterator_ok : Juniper.Gen.PinSkeletonPar.pin_parallel_type_mapIterator = Juniper.Pinned.SkeletonPar.pin_parallel_type_mapIterator := by rfl
 theorem pin_parallel_type_mapStream_ok : Juniper.Gen.PinSkeletonPar.pin_parallel_type_mapStream = Juniper.Pinned.SkeletonPar.pin_parallel_type_mapStream := by rfl
 theorem pin_parallel_type_valueAndIndex_ok : Juniper.Gen.PinSkeletonPar.pin_parallel_type_valueAndIndex = Juniper.Pinned.SkeletonPar.pin_parallel_type_valueAndIndex := by rfl
